@@ -656,6 +656,32 @@ def spaces() -> CharClass:
     return _SPACES
 
 
+_ISDIGIT = None
+
+
+def isdigit_class() -> CharClass:
+    global _ISDIGIT
+    if _ISDIGIT is None:
+        _ISDIGIT = from_predicate(lambda c: chr(c).isdigit())
+    return _ISDIGIT
+
+
+def str_isascii(s):
+    """s.isascii(): every character is below U+0080 (true for the empty string)"""
+    return z3.InRe(s, z3.Star(CharClass([(0, 0x7F)]).to_z3()))
+
+
+def str_isdigit(s):
+    """s.isdigit(): non-empty and every character is a digit (the running interpreter's str.isdigit, enumerated over all
+    code points)"""
+    return z3.InRe(s, z3.Plus(isdigit_class().to_z3()))
+
+
+ASSUMED["str.isascii / str.isdigit (strmodel)"] = ("s.isascii(): all characters < U+0080; s.isdigit(): non-empty and every "
+                                                   "character satisfies the interpreter's per-character isdigit "
+                                                   "(enumerated over all code points at check time)")
+
+
 def py_int_literal_re():
     """The strings int(str) accepts (base 10): optional white space, optional sign, digits with single underscores between
     them, optional white space - with the running interpreter's notion of white space and of decimal digits
